@@ -138,12 +138,21 @@ impl<E: Elem> World<E> {
     fn op_default(&mut self, cx: &mut Cx, a: [u32; N_ARGS]) {
         let li = lens_idx(a[0]);
         let n = LENS[li];
+        ledger::with(|s| s.clones.clear());
         let r = with_len!(li; N => lib(|| Arr::from(GenericArray::<E, N>::default())));
         let calls = ledger::seam_count(Seam::Default) as usize;
         match r {
             Ok(arr) => {
                 if cx.checks.c08 && calls != n {
                     fail("C08-default-calls", format!("Default for length {n} called the element's default {calls} times"));
+                }
+                if cx.checks.c08 && E::HAS_ID {
+                    // element i is the result of the i-th call
+                    let made: Vec<u32> = ledger::with(|s| s.clones.iter().filter(|c| c.0 == u32::MAX).map(|c| c.1).collect());
+                    let got = with_arr!(&arr; x, N => { let _ = N::USIZE; ids_of(x.as_slice(), 930) });
+                    if got != made {
+                        fail("C08-default-order", format!("Default for length {n}: calls produced {made:?} in that order, the array holds {got:?}"));
+                    }
                 }
                 cx.cov(&[OpKind::DefaultArr as u64, n as u64, 0]);
                 self.put_arr(cx, arr);
